@@ -213,6 +213,76 @@ def case_curve(loadcase, fam, name, rep):
     return fn
 
 
+def case_curve_multi(rep):
+    """Curve jobs of other shapes: several steps (the second not starting where the first ended, with unloading), a step without
+    a ramp, the start field / threaded options, a mixed (u, p, J) body whose reaction is split off the global vector."""
+    def fn(run):
+        import felupe as fem
+        rng = rng_for(run.seed, "C09", "curve-multi", rep)
+        mon = SolverMonitor(run).attach()
+        try:
+            fam = ["hexahedron", "tetra", "hexahedron20"][rep % 3]
+            mesh, L = problems.box_mesh(fam, rng)
+            name = ["neo_hooke", "neo_hooke_compressible"][rep % 2]
+            umat, W, p = ref_material(rng, name)
+            axis = int(rng.integers(0, 3))
+            others = [a for a in range(3) if a != axis]
+            A0 = float(np.prod(L[others]))
+
+            def judge(job, moves, what, unit):
+                x, y = np.array(job.x), np.array(job.y)
+                if len(x) != len(moves):
+                    run.fail("homogeneous.curve", "shape=%s clause=curve-length" % what, "%s: %d points recorded for %d substeps" % (what, len(x), len(moves)))
+                    return
+                worst, sc = 0.0, 0.0
+                for k, mv in enumerate(moves):
+                    P11 = OH.uniaxial(W, 1 + mv / L[axis])[0]
+                    sc = max(sc, abs(P11) * A0)
+                    worst = max(worst, abs(y[k][axis] - P11 * A0))
+                    if abs(x[k][axis] - mv) > 1e-12 * max(1.0, abs(mv)):
+                        run.fail("homogeneous.curve", "shape=%s clause=recorded-displacement" % what, "%s: job.x is not the prescribed value" % what)
+                        return
+                run.compare("homogeneous.curve", "shape=%s clause=reaction-force" % what, worst / max(sc, 1e-300), 1e-7,
+                            "%s: recorded reaction force differs from the analytic P * A0" % what, unit=unit, config=(what, fam, name))
+            # (a) two steps, start field and threaded assembly handed to evaluate()
+            field = problems.field_for(fam, mesh, "3d")
+            body = fem.SolidBody(umat, field)
+            b, _ = fem.dof.uniaxial(field, clamped=False, axis=axis, sym=True)
+            m1 = np.array([0.1, 0.2]) * L[axis]
+            m2 = np.array([0.1, -0.1, 0.0]) * L[axis]
+            job = fem.CharacteristicCurve([fem.Step([body], ramp={b["move"]: m1}, boundaries=b), fem.Step([body], ramp={b["move"]: m2}, boundaries=b)], b["move"])
+            job.evaluate(verbose=False, tol=1e-10, x0=field, parallel=True)
+            judge(job, list(m1) + list(m2), "two-steps+x0+parallel", "curve:multi:two-steps")
+            # (b) a step without a ramp: one substep with the value stored in the boundary
+            f2 = problems.field_for(fam, mesh, "3d")
+            mv = float(rng.uniform(0.1, 0.3)) * L[axis]
+            b2, _ = fem.dof.uniaxial(f2, clamped=False, axis=axis, sym=True, move=mv)
+            job2 = fem.CharacteristicCurve([fem.Step([fem.SolidBody(umat, f2)], boundaries=b2)], b2["move"])
+            job2.evaluate(verbose=False, tol=1e-10)
+            judge(job2, [mv], "step-without-ramp", "curve:multi:no-ramp")
+            # (c) mixed (u, p, J) body: only the displacement block of the global force vector is summed
+            if name == "neo_hooke" and fam in ("hexahedron", "hexahedron20"):
+                fm = fem.FieldsMixed(gen.make_region(fam, mesh), n=3)
+                bm, _ = fem.dof.uniaxial(fm, clamped=False, axis=axis, sym=True)
+                bodym = fem.SolidBody(fem.ThreeFieldVariation(umat), fm)
+                mvs = np.linspace(0, float(rng.uniform(0.15, 0.3)) * L[axis], 4)[1:]
+                for use_items in (False, True):
+                    jm = fem.CharacteristicCurve([fem.Step([bodym], ramp={bm["move"]: mvs}, boundaries=bm)], bm["move"], items=[bodym] if use_items else None)
+                    jm.evaluate(verbose=False, tol=1e-10)
+                    judge(jm, list(mvs), "mixed-body items=%s" % use_items, "curve:multi:mixed")
+                    fm[0].values[:] = 0
+                    fm[1].values[:] = 0
+                    fm[2].values[:] = 1
+        except ValueError as exc:
+            if "not converged" in str(exc) or "NaN" in str(exc):
+                run.skip("homogeneous.curve", "job did not converge: " + str(exc).strip()[:40])
+            else:
+                raise
+        finally:
+            attach.detach_all()
+    return fn
+
+
 def case_view(name, rep):
     def fn(run):
         import felupe as fem
@@ -230,6 +300,18 @@ def case_view(name, rep):
             run.compare("homogeneous.view", "view=%s material=%s clause=curve" % (label, name), maxabs(np.asarray(force) - r) / max(maxabs(r), 1e-300), 1e-7 + REG.get(name, 0.0),
                         "ViewMaterial %s curve of %s differs from the analytic stress" % (label, name), unit="view:" + label, config=(label, name),
                         sample={"view": label, "material": name, "params": p, "stretch": list(map(float, lam)), "force": list(map(float, force))})
+        if name == "neo_hooke":
+            # a law with state variables in the same views (per-increment history loop): on monotone (primary) loading the
+            # pseudo-elastic model is its base law
+            um_sv = fem.OgdenRoxburgh(umat, r=3.0, m=1.0, beta=0.1)
+            mono = {"ux": np.linspace(1.0, 1.8, 5), "ps": ps, "bx": bx}
+            data = um_sv.view(**mono).evaluate()
+            ref2 = {"Uniaxial": [OH.uniaxial(W, l)[0] for l in mono["ux"]], "Planar Shear": ref["Planar Shear"], "Biaxial": ref["Biaxial"]}
+            for lam, force, label in data:
+                r = np.array(ref2[label])
+                run.compare("homogeneous.view", "view=%s material=OgdenRoxburgh(%s) clause=primary-curve" % (label, name), maxabs(np.asarray(force) - r) / max(maxabs(r), 1e-300),
+                            1e-7, "ViewMaterial %s curve of a model with state variables differs from its base law on primary loading" % label,
+                            unit="view:statevars:" + label, config=(label, "OgdenRoxburgh"))
         if name in ("mooney_rivlin", "yeoh", "ogden"):
             iso, Wiso, piso = ref_material(rng, name, condensed=True)
             Wi = OH.energy(name, {**piso, "bulk": 0.0})
@@ -266,13 +348,15 @@ def cases(tier, seed):
     for name in REF:
         for rep in range(reps):
             out.append(("view:%s:%d" % (name, rep), case_view(name, rep)))
+    for rep in range(2 if tier == "quick" else 6):
+        out.append(("curve-multi:%d" % rep, case_curve_multi(rep)))
     return out
 
 
 SPEC = {
     "required_units": ["patch:" + f for f in FAMS3 + FAMS2] + ["patch:tetraMINI:bubble", "patch:hexahedron:F", "curve:uniaxial:3d", "curve:uniaxial:planestrain",
                        "curve:biaxial:3d", "curve:biaxial:planestrain", "curve:uniaxial:x", "curve:uniaxial:field", "view:Uniaxial", "view:Planar Shear",
-                       "view:Biaxial", "view:Uniaxial (Incompressible)", "view:Planar Shear (Incompressible)", "view:Biaxial (Incompressible)"]
+                       "view:Biaxial", "curve:multi:two-steps", "curve:multi:no-ramp", "curve:multi:mixed", "view:statevars:Uniaxial", "view:statevars:Planar Shear", "view:statevars:Biaxial", "view:Uniaxial (Incompressible)", "view:Planar Shear (Incompressible)", "view:Biaxial (Incompressible)"]
     + ["curve:material:" + n for n in REF],
     "rule": ("displacement patch tests (random affine map on the whole boundary) on 12 element families with interior distortion, 3D and plane "
              "strain; uniaxial and biaxial load cases with CharacteristicCurve jobs (1, 3, 7 substeps, cyclic ramps, with/without symmetry "
